@@ -828,6 +828,15 @@ class RequestHandler(BaseProtocol, Generic[_Request]):
         # so wait for self._messages to be empty.
         # payload_parser is not None if the upgrade was accepted.
         if (
+            not self._messages
+            and self._payload_parser is None
+            and self._parser is not None
+        ):
+            # The handler did not accept an upgrade. One that is still pending
+            # in the parser (request body not read yet) must not take effect
+            # once the body has arrived: nobody would read the buffered tail.
+            self._parser.set_upgraded(False)
+        if (
             self._upgraded
             and not self._messages
             and self._payload_parser is None
